@@ -107,11 +107,16 @@ def find_class(mod: ModuleSrc, cls_qual):
     body = mod.tree.body
     node = None
     for part in cls_qual.split("."):
+        if part == "<locals>":
+            continue  # `f.<locals>.C`: a class defined in the body of function f (CPython's __qualname__ spelling)
         node = next((n for n in body if isinstance(n, ast.ClassDef) and n.name == part), None)
+        if node is None:
+            # a function on the way to a local class (only followed when a `<locals>` part comes next)
+            node = next((n for n in body if isinstance(n, ast.FunctionDef) and n.name == part and f"{part}.<locals>." in cls_qual), None)
         if node is None:
             return None
         body = node.body
-    return node
+    return node if isinstance(node, ast.ClassDef) else None
 
 
 def class_member(mod: ModuleSrc, cls_qual, name, role="function") -> FnRef | None:
